@@ -137,3 +137,18 @@ Example update_input_example :
      [(s_ID, None); (s_TIME, None); (s_DV, Some (s_of [67;79;78;67])); (s_of [87;71;84], None)]) /\
   g_no_anon old (length new) = true /\ g_no_same_dropped old new = true.
 Proof. cbv zeta. split; [eexists; split; vm_compute; reflexivity|]. split; vm_compute; reflexivity. Qed.
+
+(* write_read_cycle_filtered: the old model of stale_path_refuted written through the route that names the new file *)
+Example write_read_cycle_filtered_example :
+  let hdr := [s_ID; s_TIME; s_DV; s_of [70;76;65;71]] in
+  let rows := [[CNum (1#1); CNum (0#1); CNum (1#1); CNum (1#1)]] in
+  (exists ci, column_info (i_options stale_old) = Ok ci /\
+     match read_model (written_input pr_toy true true stale_old ci (i_mdt stale_old) hdr rows) with
+     | Ok t => table_same t hdr rows | Err _ => false end = true /\
+     filters_identity (written_input pr_toy true true stale_old ci (i_mdt stale_old) hdr rows) = true) /\
+  g_no_anon (i_options stale_old) (length hdr) = true /\ g_no_same_dropped (i_options stale_old) hdr = true /\
+  cycle_guard pr_toy (i_mdt stale_old) hdr rows = true /\
+  (* the text filter re-applied to the written data would remove the row: FLAG is written as 1.0 *)
+  filters_identity (mkInput (csv_text pr_toy (i_mdt stale_old) hdr rows) (i_options stale_old) (Some [c_at]) None
+                            [] (i_accept stale_old) (i_mdt stale_old)) = false.
+Proof. cbv zeta. split; [eexists; split; [vm_compute; reflexivity|split; vm_compute; reflexivity]|]. repeat split; vm_compute; reflexivity. Qed.
